@@ -66,6 +66,29 @@ func constBranch(in *ssa.If) (int, bool) {
 // target returns true. It returns a witness path (the target instruction plus
 // the block trail) or nil. The recover block is not followed.
 func Search(from Point, target, avoid func(ssa.Instruction) bool) []ssa.Instruction {
+	return SearchKnown(from, target, avoid, nil)
+}
+
+// CondKey normalises a branch condition so that two evaluations of the same
+// comparison on the same operands get the same key.
+func CondKey(v ssa.Value) (string, bool) {
+	neg := false
+	v, neg = Not(v)
+	if bo, ok := v.(*ssa.BinOp); ok {
+		op := bo.Op
+		if op == token.NEQ {
+			op = token.EQL
+			neg = !neg
+		}
+		return op.String() + "(" + Path(bo.X) + "," + Path(bo.Y) + ")", neg
+	}
+	return Path(v), neg
+}
+
+// SearchKnown is Search with a set of branch conditions whose value is
+// already decided on the path (key from CondKey -> truth of the un-negated
+// key): at an If on such a condition only the consistent successor is taken.
+func SearchKnown(from Point, target, avoid func(ssa.Instruction) bool, known map[string]bool) []ssa.Instruction {
 	type node struct {
 		b *ssa.BasicBlock
 	}
@@ -94,6 +117,16 @@ func Search(from Point, target, avoid func(ssa.Instruction) bool) []ssa.Instruct
 			if iff, ok := b.Instrs[len(b.Instrs)-1].(*ssa.If); ok {
 				if k, ok := constBranch(iff); ok {
 					return []*ssa.BasicBlock{b.Succs[k]}
+				}
+				if known != nil {
+					if key, neg := CondKey(iff.Cond); true {
+						if val, ok := known[key]; ok {
+							if val != neg {
+								return []*ssa.BasicBlock{b.Succs[0]}
+							}
+							return []*ssa.BasicBlock{b.Succs[1]}
+						}
+					}
 				}
 			}
 		}
